@@ -77,7 +77,8 @@ NoEvalMenu == [v \in VSlots |-> {}]
 RECURSIVE HistId(_, _, _)
 HistId(st, j, n) == IF j > n THEN "" ELSE (IF j > 1 THEN "." ELSE "") \o CallCode(st[j].call) \o HistId(st, j + 1, n)
 
-ConcCCall(call, text) == [api |-> call.api, opts |-> call.opts, prog |-> call.prog, eid |-> call.eid, text |-> text]
+ConcCCall(call, text) == [api |-> call.api, opts |-> call.opts, prog |-> call.prog, eid |-> call.eid, text |-> text,
+                          style |-> IF text = RenderConcat(call.prog) THEN "concat" ELSE "emit"]
 HistCase(st, n) == [id |-> "h:" \o HistId(st, 1, n), kind |-> "hist",
                     calls |-> [j \in 1..n |-> ConcCCall(st[j].call, RenderBare(st[j].call.prog))]]
 
@@ -90,6 +91,10 @@ HistSpec == Init /\ [][HistNext]_vars
 SchedProgA == <<NEnv("x"), NNow, NGate(1), NFn("vfA"), NEnv("x"), NToday, NTod, NRes>>
 SchedProgB == <<NNow, NEnv("x"), NGate(1), NFn("vfA"), NToday, NGate(2), NEnv("x"), NNow, NTod, NRes>>
 SchedProgC == <<NEnv("x"), NGate(1), NNow, NFn("vfA"), NGate(2), NEnv("x"), NTod>>
+SchedProgD == <<NGate(1), NEnv("x"), NFn("vfA"), NGate(2), NEnv("x")>>       \* written in "concat" style
+SchedCompileD == [c \in CSlots |-> {CC("fhirpath", <<OAdd("vfA")>>, SchedProgD, 1)}]
+ConcatProgs == {SchedProgD}
+RenderSched(prog) == IF prog \in ConcatProgs THEN RenderConcat(prog) ELSE RenderEmit(prog)
 SchedCompileA == [c \in CSlots |-> {CC("fhirpath", <<OAdd("vfA")>>, SchedProgA, 1)}]
 SchedCompileB == [c \in CSlots |-> {CC("fhirpath", <<OAdd("vfA")>>, SchedProgB, 1)}]
 SchedCompileC == [c \in CSlots |-> {CC("fhirpath", <<OAdd("vfA")>>, SchedProgC, 1)}]
@@ -111,8 +116,8 @@ RECURSIVE StepDigits(_, _)
 StepDigits(h, i) == IF i > Len(h) THEN "" ELSE ToString(h[i].id) \o StepDigits(h, i + 1)
 SchedCase(h, st, compile) ==
   LET steps == EvalSteps(h)
-  IN [id |-> "s:" \o ToString(Len(compile.prog)) \o "g" \o ToString(Cardinality(VSlots)) \o ":" \o StepDigits(steps, 1), kind |-> "sched",
-      compile |-> ConcCCall(compile, RenderEmit(compile.prog)),
+  IN [id |-> "s:" \o (IF compile.prog \in ConcatProgs THEN "c" ELSE "") \o ToString(Len(compile.prog)) \o "g" \o ToString(Cardinality(VSlots)) \o ":" \o StepDigits(steps, 1), kind |-> "sched",
+      compile |-> ConcCCall(compile, RenderSched(compile.prog)),
       evals |-> [v \in 1..Cardinality(VSlots) |-> ConcECall(v, st[v].call)],
       steps |-> [i \in 1..Len(steps) |-> [v |-> steps[i].id, act |-> steps[i].act, k |-> steps[i].k]]]
 
